@@ -53,6 +53,29 @@ def check_case(rep, drv, case, modes, rng, other=b'\x02\x01\x07'):
                 break
 
 
+def check_variant_tails(rep, drv, case, rng):
+    """forms of BER the library's own encoder never writes (over-long lengths, indefinite / definite per level, segmented and
+    nested strings with empty segments, SET order, DEFAULT spelled out - drawn by the Lean variant writer): the BER decoder
+    consumes exactly that encoding and hands back what follows"""
+    from harness.props import c09
+    script = [rng.randrange(0, 1000) for _ in range(60)]
+    data = c09.variant(drv, case, script)
+    if data is None:
+        return None
+    ref = codec.impl_decode('ber', case.t, data, case.schema)
+    if not (ref[0] == 'ok' and ref[2] == b''):
+        rep.count('variant-skipped-not-accepted')      # C09's business
+        return None
+    for tail in tails(rng, b'\x04\x03abc'):
+        r = codec.impl_decode('ber', case.t, data + tail, case.schema)
+        rep.count('variant-tails')
+        if not (r[0] == 'ok' and r[2] == tail and gen.val_equiv(case.t, r[1], ref[1])):
+            rep.fail('tail-not-preserved:variant', 'decode(e + tail) for a BER variant e: %s' % (r[:3],),
+                     dict(case.replay, kind='variant-tail', bytes=data.hex(), tail=tail.hex(), script=script))
+            break
+    return data
+
+
 def check_stream(rep, cases_enc, codec_name, seekable, rng):
     """several encodings back to back: one object per encoding, position after each = its end"""
     data = b''.join(e for _, e in cases_enc)
@@ -147,6 +170,10 @@ def run(rep, tier, seed):
                              ('ber', False, rng.choice([1, 2, 7]))]),
                  rng.choice([('cer', False, 1000), ('der', True, 0)])]
         check_case(rep, drv, case, modes, rng)
+        if not sigs.has_constructed_default(case.t) and not sigs.has_real_default(case.t) and 'any' not in gen.ty_sexp(case.t):
+            vdata = check_variant_tails(rep, drv, case, rng)
+            if vdata is not None and rng.random() < 0.5:
+                pool.append(('ber', case, vdata))
         # collect valid encodings for the stream part
         for mode in modes:
             ie = codec.impl_encode(mode[0], case.t, case.v, mode[1], mode[2], obj=case.fresh_obj())
